@@ -4,6 +4,7 @@ Specs are the multivariate-normal definitions written against cov := chol chol^T
 """
 
 import jax
+import jax.flatten_util
 import jax.numpy as jnp
 import numpy as np
 
@@ -21,7 +22,7 @@ def _fam(tier, L):
 
 def _stack_std(L, result):
     """std pytree [M_1..M_n] -> array in the layout of the diagonal of cov."""
-    leaves = [jnp.asarray(x) for x in result]
+    leaves = [jax.flatten_util.ravel_pytree(x)[0] if L is not IsoL else jnp.asarray(x) for x in result]  # coefficients may be pytrees
     if L is DenseL:
         return jnp.concatenate([x.reshape(-1) for x in leaves])  # coefficient-major
     if L is IsoL:
